@@ -9,7 +9,7 @@ from ..universe import make_event
 
 ID = "C17"
 LEVEL = "model_checking"
-ASSUMPTIONS = ["see C09; wall clock of nostr_relay.storage.{db,kv} replaced by the harness clock"]
+ASSUMPTIONS = ["real nostr_relay code imported from /repo's working tree, driven through web.start_client / the storage API; SQLite runs for real behind a same-thread connection shim (bound to real aiosqlite by C06's conformance cases); LMDB is an in-memory double (bound to the real liblmdb by C10's conformance cases), msgpack is pip's pure-python codec; asyncio runs on a controlled virtual-time loop; wall clock of nostr_relay.storage.{db,kv} replaced by the harness clock"]
 
 TS = {"T17": 1_700_000_000, "T10": 1_000_000_000}
 
